@@ -7,6 +7,7 @@ package main
 
 import (
 	"bytes"
+	"crypto/rand"
 	"crypto/sha256"
 	"encoding/hex"
 	"encoding/json"
@@ -29,6 +30,8 @@ type concWorld struct {
 	verifier cose.Verifier
 	signer   cose.Signer
 	seqOut   map[string][]byte
+	bsigner   cose.Signer
+	bverifier cose.Verifier
 }
 
 // gate shared by the gated verifier/signer: who is calling, rendezvous channels
@@ -116,6 +119,10 @@ func newConcWorld(g *gate, decoded bool) *concWorld {
 	must(err)
 	w.key, err = cose.NewKeyFromPrivate(keyFor("p256-a"))
 	must(err)
+	w.bsigner, err = cose.NewSigner(cose.AlgorithmES256, keyFor("p256-a"))
+	must(err)
+	w.bverifier, err = cose.NewVerifier(cose.AlgorithmES256, keyFor("p256-a").Public())
+	must(err)
 	if decoded {
 		b, err := w.msg.MarshalCBOR()
 		must(err)
@@ -170,6 +177,13 @@ func (w *concWorld) run(t int, op string) ([]byte, string) {
 	case "keymarshal":
 		b, err := w.key.MarshalCBOR()
 		return b, errClass(err)
+	case "verifybuiltin", "signbuiltin":
+		// built-in ES256 signer / verifier shared by all goroutines, each on its own message
+		own := &cose.Sign1Message{Headers: cose.Headers{Protected: cose.ProtectedHeader{int64(1): cose.AlgorithmES256}}, Payload: []byte{byte(t), 9, 9, byte(t >> 8)}}
+		if err := own.Sign(rand.Reader, nil, w.bsigner); err != nil {
+			return nil, errClass(err)
+		}
+		return nil, errClass(own.Verify(nil, w.bverifier))
 	case "sign":
 		own := &cose.Sign1Message{Headers: cose.Headers{Protected: cose.ProtectedHeader{int64(1): int64(-7), int64(4): []byte{byte(t)}}}, Payload: []byte{byte(t), 1, 2}}
 		if err := own.Sign(nil, nil, w.signer); err != nil {
